@@ -476,7 +476,9 @@ def check_stream_class(chk, db, rect, kind, rule, rule_status):
             continue
         why = []
         for p in paths:
-            ops = [(i, e) for i, e in enumerate(p.events) if e.kind == 'call' and e.obj.startswith('f:')]
+            # operations on the stream member: member calls on it, and operator calls (formatted << / >>) that take it as operand
+            ops = [(i, e) for i, e in enumerate(p.events) if e.kind == 'call' and (
+                e.obj.startswith('f:') or (e.name.startswith('operator') and e.args and repr(e.args[0]).startswith('f:')))]
             moving = [(i, e) for i, e in ops if e.name in table]
             for i, e in ops:
                 if e.name not in table and e.name not in state_ops:
@@ -610,6 +612,7 @@ def check_fd_class(chk, db, rec_q, kind, rule):
         if n_ok == 0:
             ok = False
             why.append('no success path')
+        reached = {}
         # outcome table of one system call, decided by evaluating every returning path's conditions on the four cases
         # (ret = requested, 0, -1 with errno == EINTR, -1 with another errno): EINTR must not return at all (it is retried)
         for p in paths:
@@ -620,11 +623,20 @@ def check_fd_class(chk, db, rec_q, kind, rule):
             req = want_n.const_value() if want_n is not None and want_n.is_const() else 1
             kind_ret = 'OK' if (isinstance(p.ret, StatusVal) and p.ret.kind == 'ok') else (p.ret.arg if isinstance(p.ret, StatusVal) and p.ret.kind == 'err' else repr(p.ret))
             for case, (rv, en, allowed) in {'transferred': (req, 0, {'OK'}), 'end of data': (0, 0, {eof_err}),
-                                            'EINTR': (-1, 4, set()), 'error': (-1, 5, {'IOError'})}.items():
+                                            'EINTR': (-1, 4, set()), 'error': (-1, 5, {'IOError'}),
+                                            # errno is only meaningful after a failure: a value left over from an earlier call
+                                            # (EINTR from an interrupted read) must not change the outcome of a call that did not fail
+                                            'end of data, stale errno': (0, 4, {eof_err}), 'transferred, stale errno': (req, 4, {'OK'})}.items():
                 sat = _path_satisfied(p, sys_name, rv, en)
-                if sat and kind_ret not in allowed and not (case == 'transferred' and calls[-1].in_loop):
+                if sat:
+                    reached.setdefault(case, set()).add(kind_ret)
+                if sat and kind_ret not in allowed and not (case.startswith('transferred') and calls[-1].in_loop):
                     ok = False
                     why.append('%s() %s (ret=%d%s) returns %s' % (sys_name, case, rv, ', errno=EINTR' if en == 4 else (', errno=EIO' if en == 5 else ''), kind_ret))
+        for case in ('end of data', 'end of data, stale errno', 'error'):
+            if any(e.kind == 'call' and e.name == sys_name for p in paths for e in p.events) and not reached.get(case):
+                ok = False
+                why.append('no returning path for %s() %s: the call is retried forever' % (sys_name, case))
         chk.decide(ok, rule, where, '%s: %s' % (label, '; '.join(sorted(set(why))) if why else
                                                   'success only when %s() transferred the requested byte; 0 => %s; other => IOError unless EINTR' % (sys_name, eof_err)),
                    function=label)
